@@ -1,0 +1,60 @@
+//go:build verif
+
+// Contracts for package hack, checked by /verif/govc (comment-only file; never
+// compiled without the build tag "verif").
+package hack
+
+//@ -- The byte stream of the first TLS record as a function of every byte the
+//@ -- inner connection has delivered so far (ghost history `delivered`).
+//@ pure func hdrOK(S seq[byte]) bool = len(S) >= 5 && S[0] == 22 && 768 <= S[1]*256+S[2] && S[1]*256+S[2] <= 772
+//@ pure func decl(S seq[byte]) int = S[3]*256 + S[4]
+//@ pure func complete(S seq[byte]) bool = hdrOK(S) && len(S) >= 5+decl(S)
+
+//@ -- Representation invariant. winv is the weaker form that holds between the
+//@ -- append in hijackClientHello and the truncation in hasCompleteClientHello.
+//@ pure func inv(c *HijackClientHelloConn) bool = c.expectedLen >= 0 && (c.expectedLen == 0 ==> c.buf.view == delivered(c.tlsConn)) && (c.expectedLen != 0 ==> hdrOK(delivered(c.tlsConn)) && c.expectedLen == 5+decl(delivered(c.tlsConn)) && c.buf.view == delivered(c.tlsConn)[:min(len(delivered(c.tlsConn)), c.expectedLen)])
+//@ pure func winv(c *HijackClientHelloConn) bool = c.expectedLen >= 0 && (c.expectedLen == 0 ==> c.buf.view == delivered(c.tlsConn)) && (c.expectedLen != 0 ==> hdrOK(delivered(c.tlsConn)) && c.expectedLen == 5+decl(delivered(c.tlsConn)) && (c.buf.view == delivered(c.tlsConn) || c.buf.view == delivered(c.tlsConn)[:min(len(delivered(c.tlsConn)), c.expectedLen)]))
+
+//@ func (*HijackClientHelloConn).vlogf
+//@   props C04
+//@   trusted
+//@   assigns nothing
+
+//@ func (*HijackClientHelloConn).hasCompleteClientHello
+//@   props C04,C10
+//@   requires c != nil && c.expectedLen >= 0
+//@   assigns c.buf.view
+//@   ensures [C04:complete-iff] result <==> (c.expectedLen != 0 && len(old(c.buf.view)) != 0 && len(old(c.buf.view)) >= c.expectedLen)
+//@   ensures [C04:truncates-to-expected] result ==> c.buf.view == old(c.buf.view)[:c.expectedLen]
+//@   ensures [C04:untouched-when-incomplete] !result ==> c.buf.view == old(c.buf.view)
+
+//@ func (*HijackClientHelloConn).tryParseClientHello
+//@   props C04,C10
+//@   requires c != nil && winv(c)
+//@   requires ErrIncompleteClientHello != nil
+//@   assigns c.buf.view, c.expectedLen
+//@   ensures [C04:inv] inv(c)
+//@   ensures [C04:nil-iff-complete] result == nil <==> complete(delivered(c.tlsConn))
+//@   ensures [C04:exact] result == nil ==> c.buf.view == delivered(c.tlsConn)[:5+decl(delivered(c.tlsConn))]
+
+//@ func (*HijackClientHelloConn).hijackClientHello
+//@   inline
+
+//@ func (*HijackClientHelloConn).GetClientHello :: c -> rec, err
+//@   props C04,C10
+//@   requires c != nil && inv(c)
+//@   requires ErrIncompleteClientHello != nil
+//@   assigns c.buf.view, c.expectedLen
+//@   ensures [C04:inv] inv(c)
+//@   ensures [C04:reported-iff-complete] err == nil <==> complete(delivered(c.tlsConn))
+//@   ensures [C04:exact] err == nil ==> rec == delivered(c.tlsConn)[:5+decl(delivered(c.tlsConn))]
+//@   ensures [C04:nothing-on-error] err != nil ==> len(rec) == 0
+
+//@ func (*HijackClientHelloConn).Read :: c, b -> n, err
+//@   props C04,C10
+//@   requires c != nil && inv(c)
+//@   requires ErrIncompleteClientHello != nil
+//@   assigns post(b), delivered(c.tlsConn), c.buf.view, c.expectedLen
+//@   ensures [C04:inv] inv(c)
+//@   ensures [C04:transparent] 0 <= n && n <= len(b) && delivered(c.tlsConn) == old(delivered(c.tlsConn)) ++ post(b)[:n]
+//@   ensures [C04:error-delivers-nothing] err != nil ==> n == 0 && delivered(c.tlsConn) == old(delivered(c.tlsConn))
